@@ -36,6 +36,14 @@ impl OverrideEntryPoint {
         let sylvia = crate_module();
         let values = msg_type.emit_ctx_values();
 
+        // The chain hands the reply over as a `Reply` value, not as serialized bytes.
+        if *msg_type == MsgType::Reply {
+            return quote! {
+                #entry_point ( #values .into(), msg)
+                    .map_err(Into::into)
+            };
+        }
+
         quote! {
             #entry_point ( #values .into(), #sylvia ::cw_std::from_json::< #msg_name >(&msg)?)
                 .map_err(Into::into)
